@@ -214,7 +214,7 @@ TABLE["C13"] = {
 # bridge modules (lean/InjModel/Tie/<name>.lean: function translated from the source = model function)
 # whose theorems are proof obligations of a property
 TIES = {
-    "C01": ["X86"], "C13": ["X86"], "C10": ["X86"],
+    "C01": ["X86"], "C13": ["X86"], "C10": ["X86"], "C11": ["Alloc"], "C12": ["Alloc"],
 }
 
 # which properties a translator item matters to (prefix of "File.name" -> property ids); used to
